@@ -107,18 +107,20 @@ def group_observations(obs_by_cfg):
 
 
 def split_class(groups):
-    """how the configurations split: 'legacy-vs-venom' when every group is pure in the pipeline, else the first configuration
-    of the second group"""
-    def pipes(g):
-        return {n.split("-")[0] for n in g}
-    if all(len(pipes(g)) == 1 for g in groups[:2]) and pipes(groups[0]) != pipes(groups[1]):
+    """how the configurations split: 'legacy-vs-venom' when all legacy configurations sit in one group and all venom
+    configurations without disable flags in another; else the first configuration of the second group"""
+    def where(pred):
+        return {k for k, g in enumerate(groups) for n in g if pred(n)}
+    leg = where(lambda n: n.startswith("legacy-"))
+    ven = where(lambda n: n.startswith("venom-") and "-no_" not in n)
+    if len(leg) == 1 and len(ven) == 1 and leg != ven:
         return "legacy-vs-venom"
     return groups[1][0]
 
 
 def part_generated(ctx, cfgs):
     t0 = time.time()
-    n = 40 if ctx.tier == "quick" else 100
+    n = 30 if ctx.tier == "quick" else 100
     items, stats = D.generate(ctx, "c02gen", n, ncalls=6)
     obs = D.observe_all(items, cfgs, procs=3)
     n_cmp = 0
@@ -133,7 +135,7 @@ def part_generated(ctx, cfgs):
             st, o = obs[(i, j)]
             if st == "exc":
                 if o[0] not in D.BENIGN_REJECT:
-                    crashes.setdefault(o[0], []).append((i, cfg, o[1]))
+                    crashes.setdefault(o[0], []).append((i, cfg, o[1], o[2] if len(o) > 2 else ""))
                 continue
             res, sto = o
             per[cfg.name] = ([(ok, out.hex(), tuple((tuple(x.hex() for x in t), d.hex()) for t, d in logs)) for ok, out, logs in res],
@@ -141,7 +143,7 @@ def part_generated(ctx, cfgs):
                              [(n_, e_, g_) for n_, _s, e_, g_ in sto.get("$maps", [])])
             n_cmp += len(res)
         groups = group_observations(per)
-        if len(groups) > 1 and reported < 3:
+        if len(groups) > 1 and reported < 2:
             reported += 1
             a, bname = groups[0][0], groups[1][0]
             names = [c.name for c in cfgs]
@@ -157,7 +159,7 @@ def part_generated(ctx, cfgs):
                 try:
                     from vlib.c01_shrink import shrink
                     from checks.c01 import order_tags
-                    sp, sc, sd = shrink(prog, calls, wrong[0], wrong[1]["what"], budget_s=45 if ctx.tier == "quick" else 120)
+                    sp, sc, sd = shrink(prog, calls, wrong[0], wrong[1]["what"], budget_s=25 if ctx.tier == "quick" else 120)
                     if sd is not None:
                         prog, calls = sp, sc
                         shapes = sorted(order_tags(sp))
@@ -175,7 +177,7 @@ def part_generated(ctx, cfgs):
                            "vs_source_semantics": {a: da, bname: db}},
                           key=key)
     for exc, lst in crashes.items():
-        i, cfg, msg = lst[0]
+        i, cfg, msg, site = lst[0]
         prog = items[i]["prog"]
         try:   # shrink the crashing program (statement / expression deletion) while the same exception type persists
             from vlib.c01_shrink import shrink_pred
@@ -191,7 +193,7 @@ def part_generated(ctx, cfgs):
             prog = shrink_pred(prog, still, budget_s=30 if ctx.tier == "quick" else 90)
         except Exception as e:
             ctx.log(f"crash shrinking failed: {e}")
-        report_crash(ctx, exc, cfg, msg, prog.vy(prune=True), len(lst))
+        report_crash(ctx, exc, cfg, msg, prog.vy(prune=True), len(lst), site)
     ctx.corr["generated"] = {"programs": len(items), "calls_compared": n_cmp, "revert": D.revert_stats(items),
                              "config_dependent_crashes": {k: len(v) for k, v in crashes.items()},
                              "seconds": round(time.time() - t0, 1)}
@@ -225,7 +227,7 @@ def narrow_crash(exc, cfg, src):
 _REPORTED = set()
 
 
-def report_crash(ctx, exc, cfg, msg, src, count):
+def report_crash(ctx, exc, cfg, msg, src, count, site=""):
     """a program accepted by the reference configuration that crashes the compiler under another configuration"""
     sig = (exc, (msg.strip().splitlines() or [""])[0][:60], cfg.evm if exc == "TargetOpcodeError" else "+".join(cfg.flags))
     if sig in _REPORTED:
@@ -244,7 +246,12 @@ def report_crash(ctx, exc, cfg, msg, src, count):
         cfg, why = narrow_crash(exc, cfg, src)
     except Exception:
         why = "+".join(cfg.flags) or cfg.name
-    key = f"C02:crash:{exc}:{why}:{first_line}"
+    raw_first = (msg.strip().splitlines() or [""])[0]
+    if _re.search(r"[%\d]", raw_first) and site:
+        # the message carries SSA names / numbers: key by the raise site instead
+        key = f"C02:crash:{exc}:{why}:{site}"
+    else:
+        key = f"C02:crash:{exc}:{why}:{first_line}"
     if exc == "AssertionError" and why == "disable_sccp":
         key = "C02:disable_sccp-branch-optimization-assert"
     ctx.violation("failing-input", f"{exc} while compiling under {cfg.name} a program the default configuration accepts",
@@ -339,7 +346,7 @@ def _corpus_one(args):
     try:
         return (k, j, "ok", R.observe_contract(job["src"], cfg, job["plan"], job["helper"], job["abi"]))
     except Exception as e:
-        return (k, j, "exc", (type(e).__name__, str(e)[:300]))
+        return (k, j, "exc", (type(e).__name__, str(e)[:300], D.raise_site(e)))
 
 
 # minimized past failures (run with the corpus, first)
@@ -504,7 +511,7 @@ def part_corpus(ctx, cfgs):
     global _JOBS
     t0 = time.time()
     jobs = load_corpus(ctx)
-    ncalls = 14 if ctx.tier == "quick" else 40
+    ncalls = 10 if ctx.tier == "quick" else 40
     usable = []
     skipped = {}
     for job in jobs:
@@ -524,8 +531,21 @@ def part_corpus(ctx, cfgs):
     n_base = len(cfgs)
     cfgs = list(cfgs) + [Config(True, "gas", "cancun", flags=[f]) for f in USABLE_FLAGS]
     _JOBS = {"jobs": usable, "cfgs": cfgs}
-    work = [(k, j) for k, job in enumerate(usable) for j, cfg in enumerate(cfgs)
-            if not (job["min_evm"] == "cancun" and cfg.evm in R.PRE_CANCUN) and (j < n_base or job.get("regress"))]
+    # quick tier: the (large) example contracts run under four most-different configurations only, the corpus under seven
+    quick_skip_corpus = {"legacy-codesize-london", "legacy-gas-paris-debug", "venom-none-shanghai"} if ctx.tier == "quick" else set()
+    quick_examples = {"legacy-gas-prague", "venom-gas-prague", "legacy-none-cancun", "venom-O3-prague"}
+
+    def wanted(job, j, cfg):
+        if job["min_evm"] == "cancun" and cfg.evm in R.PRE_CANCUN:
+            return False
+        if j >= n_base:
+            return bool(job.get("regress"))
+        if job.get("regress"):
+            return True
+        if ctx.tier == "quick" and job["name"].startswith("examples/"):
+            return cfg.name in quick_examples
+        return cfg.name not in quick_skip_corpus
+    work = [(k, j) for k, job in enumerate(usable) for j, cfg in enumerate(cfgs) if wanted(job, j, cfg)]
     out = {}
     with mp.get_context("fork").Pool(3) as pool:
         for k, j, st, o in pool.imap_unordered(_corpus_one, work, chunksize=2):
@@ -542,7 +562,7 @@ def part_corpus(ctx, cfgs):
             st, o = out[(k, j)]
             if st == "exc":
                 if o[0] not in D.BENIGN_REJECT:
-                    crashes.setdefault((o[0], "+".join(cfg.flags)), []).append((k, cfg, o[1]))
+                    crashes.setdefault((o[0], "+".join(cfg.flags)), []).append((k, cfg, o[1], o[2] if len(o) > 2 else ""))
                 continue
             per[cfg.name] = o
             n_cmp += len(o["results"])
@@ -560,8 +580,8 @@ def part_corpus(ctx, cfgs):
                            "helper_deployed_first": job["helper"] is not None},
                           key=f"C02:{job['name']}:{split_class(groups)}")
     for (exc, fl), lst in crashes.items():
-        k, cfg, msg = lst[0]
-        report_crash(ctx, exc, cfg, msg, usable[k]["src"], len(lst))
+        k, cfg, msg, site = lst[0]
+        report_crash(ctx, exc, cfg, msg, usable[k]["src"], len(lst), site)
     ctx.corr["corpus"] = {"contracts": [j["name"] for j in usable], "skipped": skipped, "calls_compared": n_cmp,
                           "successful_calls": ok_calls, "seconds": round(time.time() - t0, 1)}
     return n_cmp
